@@ -61,7 +61,9 @@ DOC_LAYOUTS = [
 ]
 LITERALS = ['1', '-2', '3.5', "'s'", "b'b'", 'True', 'None', '[1, 2]', '[]', "['a', 'b']", "[1, 'a']", '(1, 2)', '()', "(1, 'a')", '{1, 2}', "{'k': 1}", "{'k': 1, 'j': 'x'}", '{}',
             '[[1], [2]]', "{'k': [1]}", '(1,)', '1 + 2', "'a' 'b'", '[1.0, 2.5]', '{1: "a", 2: "b"}', '[None, None]', '2j', '...', "[(1, 2), (3, 4)]", 'frozenset()', '-1.5', '[True, False]']
-WRAPS = [None, None, None, 'if True:', 'try:', 'with nullcontext():', 'for _loop in (0,):', 'while True:', 'if 1:', 'if not 0:']
+# (the last ones compare __name__ but are *taken* on import: only "== '__main__'" blocks are outside the documented API)
+WRAPS = [None, None, None, 'if True:', 'try:', 'with nullcontext():', 'for _loop in (0,):', 'while True:', 'if 1:', 'if not 0:',
+         "if __name__ != '__main__':", "if __name__ == 'pk.mod':", "if '__main__' != __name__:", "if __name__ not in ('__main__',):", "if len(__name__) == 6:"]
 EXC_BASES = ['Exception', 'ValueError', 'KeyError', 'OSError', 'AppError', 'Warning', 'BaseException']
 
 
